@@ -78,3 +78,43 @@ class TtyTransport(object):
 
     def close(self):
         pass
+
+
+import usb1
+
+
+class UsbEndpoint(object):
+    def __init__(self, addr, size):
+        self.addr, self.size = addr, size
+
+    def getAddress(self):
+        return self.addr
+
+    def getMaxPacketSize(self):
+        return self.size
+
+
+class UsbHandle(object):
+    """python-libusb1 device handle as nfc.clf.transport.USB uses it: every bulk transfer may fail with any
+    USBError (timeout, device unplugged, pipe error, ...); a read returns up to the requested number of octets"""
+    def __init__(self):
+        self.transfers = 0
+
+    def _fail(self):
+        k = nondet_int(0, 3)
+        if k == 1:
+            raise usb1.USBErrorTimeout()
+        if k == 2:
+            raise usb1.USBErrorNoDevice()
+        if k == 3:
+            raise usb1.USBErrorPipe()
+
+    def bulkWrite(self, endpoint, data, timeout=0):
+        self.transfers = self.transfers + 1
+        self._fail()
+        return len(data)
+
+    def bulkRead(self, endpoint, length, timeout=0):
+        self.transfers = self.transfers + 1
+        self._fail()
+        return nondet_bytearray(0, length)
